@@ -685,7 +685,14 @@ func (p *parser) parseCallExpression(function ast.Expression) ast.Expression {
 		Function:  function,
 	}
 
-	ss := strings.Split(function.String(), ".")
+	// only a dotted name (a.b.c) has a receiver chain to split off; any other
+	// callee (the result of a call, an index, a literal) is kept as it is.
+	// Printing it here would also cost time proportional to its size for
+	// every call of a chain a(1)(2)(3)...
+	var ss []string
+	if id, ok := function.(*ast.Identifier); ok {
+		ss = strings.Split(id.String(), ".")
+	}
 
 	if len(ss) > 1 {
 		exp.Callee = &ast.Identifier{
